@@ -91,6 +91,7 @@ type Server struct {
 	DBs      []map[string]*Obj
 	NumDB    int
 	Log      []Exec
+	Queued   []Exec // commands received inside MULTI (queued), whether or not EXEC followed
 	Sessions []*Session
 	seq      int
 	txnSeq   int
@@ -318,6 +319,7 @@ func (s *Server) Dispatch(ss *Session, args [][]byte) bool {
 			}
 		}
 		ss.Queue = append(ss.Queue, args)
+		s.Queued = append(s.Queued, Exec{Conn: ss.Conn.ID, Tag: ss.Conn.Tag, DB: ss.DB, Name: name, Args: rest, Node: s.Addr})
 		s.reply(ss, resp.Simple("QUEUED"))
 		return true
 	}
